@@ -459,6 +459,16 @@ UnwoundSearchKeep(u) ==
     /\ op' = NoOp
     /\ UNCHANGED <<life, loose, heap, cfg>>
 
+\* Default::default of the element type panicked while an array was being defaulted: what has been built is the
+\* operation's to drop, like after a panicking generator
+DefaultPanicStep ==
+    /\ ~Idle /\ op.name = "default" /\ op.phase = "idle" /\ op.k < op.n
+    /\ LET f == Scoped(SeqRange(op.out), OpScope) IN
+       /\ owed' = OwedAfterOwe(f)
+       /\ life' = LifeAfterOwe(f)
+    /\ op' = [op EXCEPT !.phase = "unwinding"]
+    /\ UNCHANGED <<pool, loose, heap, cfg>>
+
 RetCb(r) ==
     /\ ~Idle /\ IsCbOp(op.name) /\ op.name \notin CloneFromOps \cup SearchOps /\ op.phase = "idle"
     /\ op.k = op.n
